@@ -347,7 +347,12 @@ class Emitter:
         k = p["k"]
         if k == "pwild": return "_"
         if k == "pident":
-            if declare: self.declare(p["name"], mut=False)
+            if declare:
+                self.declare(p["name"], mut=bool(p.get("mut")) and not p.get("byref"))
+                if p.get("mut") and not p.get("byref"):
+                    # `Ok(mut x)`: the arm re-binds x as a mutable local (see match_lines)
+                    if not hasattr(self, "mut_pat_names"): self.mut_pat_names = []
+                    self.mut_pat_names.append(p["name"])
             return lname(p["name"])
         if k == "pref": return self.pat(p["p"], declare)
         if k == "ptuple": return "(" + ", ".join(self.pat(q, declare) for q in p["ps"]) + ")"
@@ -755,13 +760,32 @@ class Emitter:
         ext = self.c.extern(key)
         if ext is not None and key not in self.c.spec.get("functions", {}):
             tmpl = ext["lean"]
+            if ext.get("by_type"):
+                # the extern is generic in its RESULT type (`str::parse::<T>`, `T::try_from`): T is the type of the place the
+                # value ends up in (assignment target, annotated `let`, a typed extern argument)
+                et = getattr(self, "expect_ty", None)
+                etn = self.type_name(et) if et is not None else None
+                if etn is None or etn not in ext["by_type"]:
+                    raise Unsupported(f"{self.file}:{line}: cannot determine the result type of {key} from its context (got {etn})")
+                tmpl = ext["by_type"][etn]
             if ext.get("recv_place"):
                 # the call acts on a ghost field of `self` (environment state), not on its syntactic receiver
                 segs = ext["recv_place"].split(".")
                 recv = N("path", line, segs=[segs[0]])
                 for sg in segs[1:]: recv = N("field", line, e=recv, name=sg)
             use_recv = recv is not None and "{self}" in tmpl
-            pre, ts = self.vals(([recv] if use_recv else []) + list(args))
+            if ext.get("arg_types"):
+                pre, ts = [], []
+                for i, a in enumerate(([recv] if use_recv else []) + list(args)):
+                    j = i - (1 if use_recv else 0)
+                    saved = getattr(self, "expect_ty", None)
+                    if j >= 0 and j < len(ext["arg_types"]) and ext["arg_types"][j]:
+                        self.expect_ty = N("tpath", line, segs=[(ext["arg_types"][j], [])])
+                    p1, t1 = self.val(a)
+                    self.expect_ty = saved
+                    pre += p1; ts.append(t1)
+            else:
+                pre, ts = self.vals(([recv] if use_recv else []) + list(args))
             term = tmpl
             ts_self = None
             if use_recv:
@@ -918,6 +942,14 @@ class Emitter:
             t = self.fresh()
             pre = pre + p2 + [f"let {t} ← Rs.unwrapR {comp} {self.site(line, name)}"]
             return pre + self.assign_place(tgt, t, line), "()"
+        if name == "unwrap_or_else" and len(args) == 1 and args[0]["k"] == "closure":
+            b = args[0]["body"]
+            while b["k"] in ("paren",): b = b["e"]
+            if b["k"] == "block" and not b["stmts"] and b["tail"] is not None: b = b["tail"]
+            elif b["k"] == "block" and len(b["stmts"]) == 1 and b["tail"] is None and b["stmts"][0]["k"] == "expr": b = b["stmts"][0]["e"]
+            if b["k"] == "macro" and b["name"] in ("panic", "unreachable"):
+                # `x.unwrap_or_else(|_| panic!(..))` is `x.expect(..)`
+                return self.v_mcall(N("mcall", line, recv=recv, name="expect", targs=None, args=[]))
         if name in ("unwrap", "expect"):
             r0 = recv
             while r0["k"] == "paren": r0 = r0["e"]
@@ -942,6 +974,13 @@ class Emitter:
             pre, c = self.comp_with_writeback(recv)
             fn = {"is_err": "Rs.isErr", "is_ok": "Rs.isOk", "ok": "Rs.okOpt"}[name]
             return pre, f"(← {fn} {self.atom(c)})"
+        if name == "map" and len(args) == 1 and args[0]["k"] == "path" and len(args[0]["segs"]) >= 2:
+            # `opt.map(Type::function)`  ==  `opt.map(|x| Type::function(x))`
+            xv = N("pident", line, name="x__", mut=False, byref=False)
+            cl = N("closure", line, params=[(xv, None)], body=N("call", line, f=args[0], args=[N("path", line, segs=["x__"])]))
+            p0, t0 = self.val(recv)
+            pc, tc = self.v_closure(cl)
+            return p0 + pc, f"(Option.map {tc} {self.atom(t0)})"
         if name == "map" and len(args) == 1 and args[0]["k"] == "closure" and self.is_option(self.strip_ref(self.typeof(recv))):
             p, t = self.val(recv)
             cl = args[0]
@@ -950,6 +989,9 @@ class Emitter:
             body = self.tail_value(cl["body"])
             self.pop_scope()
             return p, f"(← Rs.optMapM {self.atom(t)} (fun {' '.join(ps)} => do\n" + "\n".join(indent(body, 2)) + "))"
+        if name == "get" and not args:
+            # `NonZeroUsize::get()` and friends: the number itself (a slice `get` always has an argument)
+            return self.val(recv)
         if name in MUT_BUILTINS:
             return self.mut_builtin(e)
         if name == "as_bytes" and recv["k"] == "path" and len(recv["segs"]) == 1 and recv["segs"][0] in self.c.consts:
@@ -1132,7 +1174,19 @@ class Emitter:
                 t = f"(← Rs.unwrapR (Rs.tryIntoArray {self.atom(src)} {self.atom(nlen)}) {self.site(init0['line'], init0['name'])})"
                 self.declare(pat["name"], mut=pat["mut"], ty=s["ty"])
                 return p0 + p1 + [f"{'let mut' if pat['mut'] else 'let'} {lname(pat['name'])} : Bytes := {t}"]
-        pre, t = self.val(s["init"])
+        saved_et = getattr(self, "expect_ty", None)
+        if s["ty"] is not None:
+            self.expect_ty = self.expected_for(s["init"], s["ty"])
+        elif pat["k"] == "pident" and id(s) in getattr(self, "assign_targets", {}):
+            # no annotation: the type of the first place this variable is assigned to later in the same block
+            tgt, in_some = self.assign_targets[id(s)]
+            tt = self.typeof(tgt)
+            if in_some and tt is not None and self.is_option(self.strip_ref(tt)): tt = self.strip_ref(tt)["segs"][-1][1][0]
+            self.expect_ty = self.expected_for(s["init"], tt)
+        try:
+            pre, t = self.val(s["init"])
+        finally:
+            self.expect_ty = saved_et
         ty = s["ty"] if s["ty"] is not None else self.typeof(s["init"])
         if pat["k"] == "pident":
             self.declare(pat["name"], mut=pat["mut"], ty=ty)
@@ -1309,6 +1363,48 @@ class Emitter:
             return pre + p, t
         return self.val(dflt)
 
+    def expected_for(self, rhs, ty):
+        """the type a context-typed call inside `rhs` must produce when `rhs` as a whole has type `ty`: looks through
+        `Some(..)` (Option<T> -> T); `?`, unwrap / expect / unwrap_or_else keep the type"""
+        r = rhs
+        while r["k"] == "paren": r = r["e"]
+        t = self.strip_ref(ty) if ty is not None else None
+        if t is not None and r["k"] == "call" and r["f"]["k"] == "path" and r["f"]["segs"][-1] == "Some" and self.is_option(t):
+            return self.expected_for(r["args"][0], t["segs"][-1][1][0])
+        return t
+
+    def collect_assign_targets(self, node, out):
+        """pre-pass: id(let statement) -> (place its variable is first assigned to LATER IN THE SAME BLOCK, wrapped in Some?)
+        for `let v = ..; … place = v` / `place = Some(v)`"""
+        def first_target(stmts, name):
+            found = []
+            def walk(n):
+                if found: return
+                if isinstance(n, dict):
+                    if n.get("k") == "assign" and n.get("op") == "=":
+                        r = n["r"]; in_some = False
+                        while r["k"] == "paren": r = r["e"]
+                        if r["k"] == "call" and r["f"]["k"] == "path" and r["f"]["segs"][-1] == "Some" and len(r["args"]) == 1:
+                            r = r["args"][0]; in_some = True
+                        while r["k"] in ("paren", "ref"): r = r["e"]
+                        if r["k"] == "path" and len(r["segs"]) == 1 and r["segs"][0] == name:
+                            found.append((n["l"], in_some)); return
+                    for v in n.values(): walk(v)
+                elif isinstance(n, (list, tuple)):
+                    for v in n: walk(v)
+            walk(stmts)
+            return found[0] if found else None
+        if isinstance(node, dict):
+            if node.get("k") == "block":
+                sts = node.get("stmts") or []
+                for i, st in enumerate(sts):
+                    if isinstance(st, dict) and st.get("k") == "let" and st.get("ty") is None and st["pat"]["k"] == "pident":
+                        t = first_target(sts[i + 1:] + ([node["tail"]] if node.get("tail") is not None else []), st["pat"]["name"])
+                        if t is not None: out[id(st)] = t
+            for v in node.values(): self.collect_assign_targets(v, out)
+        elif isinstance(node, (list, tuple)):
+            for v in node: self.collect_assign_targets(v, out)
+
     def stmt_assign(self, e):
         op = e["op"]
         line = e["line"]
@@ -1341,7 +1437,12 @@ class Emitter:
                 pm2, cur2 = self.val(mp)
                 return pre + pr + pm2 + self.assign_place(mp, f"(Rs.mapModify {self.atom(cur2)} {k} (fun __e => {{ __e with {fld} := {newv} }}))", line)
         if op == "=":
-            p, t = self.val(e["r"])
+            saved = getattr(self, "expect_ty", None)
+            self.expect_ty = self.expected_for(e["r"], self.typeof(lhs))
+            try:
+                p, t = self.val(e["r"])
+            finally:
+                self.expect_ty = saved
             return p + self.assign_place(e["l"], t, line)
         binop = op[:-1]
         fake = N("bin", line, op=binop, l=e["l"], r=e["r"])
@@ -1413,6 +1514,36 @@ class Emitter:
         Guards are compiled by falling through to the remaining arms."""
         scrut = e["e"]
         arms = e["arms"]
+        # arms that test for a variant of an enum the translator only knows through externs (spec `variant_tests`:
+        # "Enum::Variant" -> (test extern, payload extern)): compiled to if / else over the scrutinee
+        vt = self.c.spec.get("variant_tests", {})
+        def vkey(p): return "::".join(p["path"][-2:]) if p["k"] == "ptstruct" else None
+        if any(vkey(a["pat"]) in vt for a in arms):
+            ln = e["line"]
+            def build(i):
+                a = arms[i]
+                p = a["pat"]
+                body = a["body"]
+                if a["guard"] is not None: raise Unsupported("guard on an extern-variant arm")
+                def blk(binds):
+                    if body["k"] == "block":
+                        return N("block", ln, stmts=binds + body["stmts"], tail=body["tail"])
+                    return N("block", ln, stmts=binds, tail=body)
+                if vkey(p) in vt:
+                    tfn, bfn = vt[vkey(p)]
+                    cond = N("call", ln, f=N("path", ln, segs=tfn.split("::")), args=[scrut])
+                    binds = []
+                    if p["ps"]:
+                        binds.append(N("let", ln, pat=p["ps"][0], ty=None, els=None,
+                                       init=N("call", ln, f=N("path", ln, segs=bfn.split("::")), args=[scrut])))
+                    if i + 1 >= len(arms): raise Unsupported("extern-variant match without a catch-all arm")
+                    return N("if", ln, c=cond, then=blk(binds), els=build(i + 1))
+                if p["k"] == "pident":
+                    return blk([N("let", ln, pat=p, ty=None, init=scrut, els=None)])
+                if p["k"] == "pwild":
+                    return blk([])
+                raise Unsupported(f"{self.file}:{ln}: pattern next to an extern-variant arm")
+            return self.arm_body(build(0), mode)
         # an arm `CONST_NAME =>` (a named constant of the crate, not a binding) compares with the constant's value
         def constify(p):
             nm = p.get("name") if p["k"] == "pident" else (p["path"][0] if p["k"] == "ppath" and len(p["path"]) == 1 else None)
@@ -1471,6 +1602,7 @@ class Emitter:
                 merged_body = None
             for a in arms:
                 self.push_scope()
+                self.mut_pat_names = []
                 if a is first_marker:
                     lines.append("| Res.err =>"); lines += indent(merged_body, 2)
                     seen_err = True
@@ -1492,12 +1624,13 @@ class Emitter:
                         seen_err = True
                     if re.fullmatch(r"Res\.ok (_|[a-z_][A-Za-z0-9_']*)", p): seen_ok_all = True
                     lines.append(f"| {p} =>")
-                    bind = []
+                    bind = [f"let mut {lname(nm)} := {lname(nm)}" for nm in getattr(self, "mut_pat_names", [])]
+                    self.mut_pat_names = []
                     ap = a["pat"]
                     if p == "Res.err" and ap["k"] == "ptstruct" and ap["ps"] and ap["ps"][0]["k"] in ("pident",):
                         # the error value itself is not modelled (error kinds are collapsed): bind the name to unit
                         self.declare(ap["ps"][0]["name"], mut=False, ty=N("tpath", 0, segs=[("ErrorValue", [])]))
-                        bind = [f"let {lname(ap['ps'][0]['name'])} := ()"]
+                        bind = bind + [f"let {lname(ap['ps'][0]['name'])} := ()"]
                     lines += indent(bind + self.arm_body(a["body"], mode), 2)
                 self.pop_scope()
             lines.append("| Res.panic __p => Res.panic __p")
@@ -1864,6 +1997,9 @@ class Emitter:
             params.append(f"({n} : {t})")
             self.declare(n, mut=False)
         self.extra_params = list(self.opts.get("extra_params", []))
+        self.expect_ty = None
+        self.assign_targets = {}
+        self.collect_assign_targets(f["body"], self.assign_targets)
         if f["selfk"] is not None:
             st = N("tpath", f["line"], segs=[(self.self_type, [])])
             params.append(f"(self : {self.lean_type(st)})")
@@ -1968,7 +2104,7 @@ BUILTIN_METHODS = {
     "is_empty": "{self}.isEmpty",
     "to_vec": "{self}", "clone": "{self}", "to_owned": "{self}", "as_ref": "{self}", "as_slice": "{self}",
     "iter": "{self}", "into_iter": "{self}", "collect": "{self}", "cloned": "{self}", "copied": "{self}",
-    "as_bytes": "{self}", "borrow": "{self}", "as_mut": "{self}", "into": "{self}", "as_mut_slice": "{self}",
+    "to_string": "{self}", "as_bytes": "{self}", "borrow": "{self}", "as_mut": "{self}", "into": "{self}", "as_mut_slice": "{self}",
     "last": "{self}.getLast?", "first": "{self}.head?",
     "chain": "({self} ++ {0})", "zip": "(List.zip {self} {0})", "enumerate": "(Rs.enumerate {self})",
     "take": "({self}.take {0})", "skip": "({self}.drop {0})", "chunks": "(Rough.chunks {0} {self})",
